@@ -671,6 +671,27 @@ impl Harness for C10 {
                 }
             }
         }
+        // SVR stiff problems: feature magnitudes of tens with C = 10 (or hundreds with C = 1) make the
+        // dual badly conditioned; SMO then needs 10^5..10^6 steps to reach the tolerance. The
+        // optimality clause must hold however long the trainer has to run.
+        for (n, dim, scale, c) in [(20usize, 2usize, 100.0f64, 1.0f64), (30, 2, 20.0, 10.0), (40, 3, 20.0, 10.0)] {
+            if !t && n == 40 {
+                continue;
+            }
+            for variant in 0..2usize {
+                let pts: Vec<Vec<f64>> = (0..n).map(|i| (0..dim).map(|j| (((i * (2 * j + 3) + 5 * j * j + (i * i) / (j + 2)) % 41) as f64 - 20.0) * scale / 20.0).collect()).collect();
+                let y: Vec<f64> = (0..n)
+                    .map(|i| {
+                        let lin = 0.3 * pts[i][0] - 0.2 * pts[i][1];
+                        match variant {
+                            0 => lin / scale * 20.0 + ((i * 7) % 5) as f64 * 0.5 - 1.0,
+                            _ => ((i * i + 3) % 11) as f64 - 5.0,
+                        }
+                    })
+                    .collect();
+                jobs.push(Job::new(format!("svr-structured-stiff-n{}-d{}-s{}-v{}-linear-C{}", n, dim, scale, variant, c), json!({"kind": "svr", "n": n, "kernel": "linear", "eps": 0.1, "C": c, "tol": 1e-3, "points": pts, "targets": y, "stiff": true})));
+            }
+        }
         // cheap and diverse jobs first, the large all-order SVC families last
         let rank = |name: &str| -> usize {
             let order = ["kernel", "gram", "svr-n", "svr-structured", "svc-big", "svc-2d", "svc-1d-n4-e1", "svc-1d-n4-e2", "svc-1d-n5"];
@@ -694,7 +715,7 @@ impl Harness for C10 {
                 "entry_paths": mc_sc::entry::BOUNDS,
                 "svc_all_orders": "every x sequence over {0,1,2}^4 x every labelling with both classes x 4 kernels x (C,tol,encoding) settings x ALL (4!)^2 visiting orders (epoch 1); 2-D: every 4-subset of the 3x2 lattice; epoch 2 ((4!)^3 orders) on one sequence family (all in thorough); n=5 with all (5!)^2 orders for the linear and RBF kernels in thorough",
                 "svc_deviation_bounded": "n=6..8 fixed point sets, epochs 1,2(,4): every schedule with at most 1 (2 thorough) non-identity Fisher-Yates steps",
-                "svr": "every x sequence over {0,1,2}^n, y over {-1,0,2}^n, n<=4 (5 thorough) x eps {0,.1,.5} x C {.1,1,100} x tol {1e-2,1e-3,1e-4} x {linear,rbf,poly}; structured sets n in {8,20,72} (also 40,80 thorough)",
+                "svr_stiff": "linear-kernel SVR on deterministic integer designs with feature magnitudes up to 20 (C=10) and 100 (C=1), n in {20,30} (40 thorough): problems on which SMO needs 1e5..1e6 steps", "svr": "every x sequence over {0,1,2}^n, y over {-1,0,2}^n, n<=4 (5 thorough) x eps {0,.1,.5} x C {.1,1,100} x tol {1e-2,1e-3,1e-4} x {linear,rbf,poly}; structured sets n in {8,20,72} (also 40,80 thorough)",
                 "kernels": "every vector pair of length <=2 over {0,±1,±2} and length 3 over {0,±1} (all in thorough), each at 6 placements (offset, spacing) in {(0,1),(25,1),(30,1/32),(1000,1),(1000,1/32),(2^20,1)} and in f64 and f32, (5 built-in kernels incl. polynomial degrees 2, 3, 2.5 and 0.5) against the closed form with a rounding allowance of 4+(len+2)*cond ulps of the number type, exact symmetry, RBF in [0,1]; Gram matrices (linear, RBF) of every point sequence n<=4 at the same placements and widths: PSD, RBF diagonal exactly 1",
             }),
         }
